@@ -399,7 +399,12 @@ pub struct Outcome {
 }
 
 /// Walks every string up to the bound as a trie, one `accept` per string.
+thread_local! {
+    static DISTURB: std::cell::Cell<bool> = std::cell::Cell::new(false);
+}
+
 pub fn run_expr(e: &Ex, leaves: &[LeafDef], cap: usize, extra_bytes: bool) -> Result<Outcome, String> {
+    DISTURB.with(|d| d.set(false));
     guard(|| {
         let aut = real(e, leaves);
         let (sp, reach, all) = analyse(&spec(e, leaves));
@@ -420,6 +425,18 @@ pub fn run_expr(e: &Ex, leaves: &[LeafDef], cap: usize, extra_bytes: bool) -> Re
             count: &mut u64,
         ) -> Result<(), String> {
             *count += 1;
+            if DISTURB.with(|d| d.get()) {
+                // a second walk on the SAME automaton object starts and is questioned
+                // while this one is under way (two live searches sharing one automaton)
+                // (of varying length, so that whatever the automaton numbers or caches per
+                // walk is out of step between the two)
+                let mut t = aut.start();
+                std::hint::black_box((aut.can_match(&t), aut.will_always_match(&t)));
+                for i in 0..(*count % 5) {
+                    t = aut.accept(&t, SYM_BYTES[((*count / 5 + i) % 3) as usize]);
+                    std::hint::black_box((aut.will_always_match(&t), aut.can_match(&t), aut.is_match(&t)));
+                }
+            }
             let m = aut.is_match(st);
             if m != sp.accept[q] {
                 return Err(format!("is_match after {:?} is {}, specification says {}", String::from_utf8_lossy(w), m, sp.accept[q]));
@@ -457,6 +474,12 @@ pub fn run_expr(e: &Ex, leaves: &[LeafDef], cap: usize, extra_bytes: bool) -> Re
             let r = real_ref(e, leaves);
             let st = r.aut().start();
             walk(r.aut(), &st, 0, 0, bound, &sp, &reach, &all, extra_bytes, &mut vec![], &mut count).map_err(|m| format!("[operands by reference] {}", m))?;
+            // and once more while a second walk on the same automaton object keeps starting
+            DISTURB.with(|d| d.set(true));
+            let st = aut.start();
+            let r2 = walk(&aut, &st, 0, 0, bound.min(6), &sp, &reach, &all, false, &mut vec![], &mut count).map_err(|m| format!("[a second walk sharing the automaton object is under way] {}", m));
+            DISTURB.with(|d| d.set(false));
+            r2?;
         }
         Ok(Outcome { strings: count, spec_states: n, complete: n + 1 <= cap })
     })
